@@ -50,6 +50,7 @@ def run(ctx):
     r2(ctx)
     r3_r4(ctx)
     r5(ctx)
+    r6(ctx)
 
 
 def r1(ctx):
@@ -101,9 +102,15 @@ def r2(ctx):
     ctx.ob("R2", "AGREE", f, src(d), bool(ct_ok) and sentinel is not None, f"decrypts the blob parameter={bool(ct_ok)} with sentinel {src(sentinel)}", d)
     rets = cfg.return_stmts()
     sent_tests, magic_tests = [], []
+    sent_falsy = isinstance(sentinel, ast.Constant) and not sentinel.value
     for n, st in cfg.stmt.items():
         if not isinstance(st, ast.If):
             continue
+        # `if not pt:` rejects a falsy sentinel (None / b"") and an empty plaintext alike
+        if sent_falsy and isinstance(st.test, ast.UnaryOp) and isinstance(st.test.op, ast.Not) and dotted(st.test.operand) == pt:
+            sent_tests.append((st, "true"))
+        elif sent_falsy and dotted(st.test) == pt:
+            sent_tests.append((st, "false"))
         for l, op, r in compare_parts(st.test):
             if dotted(l) == pt and isinstance(op, (ast.Is, ast.Eq)) and src(r) == src(sentinel):
                 sent_tests.append((st, "true"))
@@ -168,6 +175,19 @@ def r3_r4(ctx):
     rets = [s for s in statements(enc.node) if isinstance(s, ast.Return)]
     ok = ok and len(rets) == 1 and origin(enc.node, rets[0].value) is encs[0]
     ctx.ob("R4", "AGREE", enc, "return cipher.encrypt(metadata.dumps())", bool(ok), "encrypts exactly the serialised metadata and returns the ciphertext" if ok else "does not return cipher.encrypt(metadata.dumps())")
+    # every info length that fits the modulus must be accepted: an explicit rejection in encrypt_metadata must use the
+    # exact PKCS#1 v1.5 bound (len > k - 11); the size field is updated unconditionally
+    from csverif.astutil import pmatch
+    from csverif.q import dominating_conditions
+    for r in ctx.cfg(enc).raise_stmts():
+        conds = [n for t, pol, n in dominating_conditions(ctx, enc, r) if pol]
+        exact = any(pmatch("len($d) > $k.size_in_bytes() - 11", c) is not None for c in conds)
+        ctx.ob("R4", "ABS", enc, "explicit rejection " + src(r)[:40], bool(exact), "rejects exactly the lengths above k - 11" if exact else
+               f"encrypt_metadata rejects under {[src(c) for c in conds]}: not the exact PKCS#1 v1.5 bound `len(data) > k - 11` (a length that fits is refused)", r)
+    if sets:
+        unconditional = not dominating_conditions(ctx, enc, sets[0])
+        ctx.ob("R4", "DOM", enc, "size updated unconditionally", unconditional, "the size field is recomputed on every call" if unconditional else
+               f"size is only updated under {[t for t, p, n in dominating_conditions(ctx, enc, sets[0])]}: a stale size is encrypted")
 
 
 def r5(ctx):
@@ -237,3 +257,25 @@ def r5(ctx):
     ok = len(md) == 1 and dotted(md[0].value) == "self.aes_rand"
     ctx.ob("R5", "AGREE", run, "metadata.aes_rand = self.aes_rand", ok, "the metadata carries the bytes the client derived its keys from" if ok else "metadata.aes_rand is not the client's aes_rand")
     ctx.rep.count("derivation_sites", n + 2, floor=5)
+
+
+def r6(ctx):
+    """Blobs that do not decrypt / do not parse are rejected with ValueError: escape set of decrypt_metadata."""
+    from csverif import effects
+
+    effects.check_escape(ctx, "R6", ["c2.decrypt_metadata"], {"ValueError"})
+    # the emptiness of the decrypted plaintext is tested as well: some pycryptodome versions hand back b"" instead of
+    # the (non-bytes) sentinel for a padding failure
+    f = ctx.repo.func("c2.decrypt_metadata")
+    cfg = ctx.cfg(f)
+    fv = FuncView.of(f.node)
+    dec = [c for c in fn_calls(f.node) if isinstance(c.func, ast.Attribute) and c.func.attr == "decrypt"]
+    if len(dec) == 1:
+        dst = fv.stmt_of(dec[0])
+        pt = dotted(dst.targets[0]) if isinstance(dst, ast.Assign) else None
+        from csverif.q import specialise
+        spec = specialise(cfg, {pt: False, f"{pt} is None": False, f"not {pt}": True})
+        parses = [c for c in fn_calls(f.node) if ctx.rs.resolve_call(f, c).kind == "struct"]
+        reach = [c for c in parses if spec.reaches(ENTRY, cfg.node(fv.stmt_of(c)))]
+        ctx.ob("R6", "DOM", f, "empty plaintext rejected", not reach, "an empty decryption result never reaches the struct parse" if not reach else
+               "an empty (but not None) decryption result reaches BeaconMetadata(pt): with pycryptodome >= 3.20 a padding failure yields b'' for a non-bytes sentinel", dst)
